@@ -69,6 +69,22 @@ func genC15(r *Rng, e *Emitter, n int) {
 				c[k] = a[k] + float64(r.Intn(7)-3)
 				d[k] = b[k] + float64(r.Intn(7)-3)
 			}
+			if r.chance(1, 2) {
+				// long and almost parallel (directions ~1e-6 rad apart or less): a segment about 10^6 long,
+				// the second one a copy slid along it by some eighths of its length and then moved by a
+				// unit or two at each end, so that the closest approach is at one particular end
+				for k := 0; k < dim; k++ {
+					a[k] = float64(r.Intn(1 << 20))
+					b[k] = float64(r.Intn(1 << 20))
+				}
+				t := float64(r.Intn(17) - 8)
+				for k := 0; k < dim; k++ {
+					u := math.Floor((b[k] - a[k]) / 8)
+					c[k] = a[k] + t*u + float64(r.Intn(5)-2)
+					d[k] = c[k] + 8*u + float64(r.Intn(5)-2)
+				}
+				e.tally("long-near-parallel")
+			}
 		}
 		if r.chance(1, 4) {
 			// signed zeros: +0 and -0 are the same number
